@@ -1018,6 +1018,85 @@ func ruleCacheFresh(c *Ctx, h *ssa.Function, docStore ssa.CallInstruction, docFi
 			c.check(dropped && okLevel, "C-CACHE", funcName(h), "cache "+strings.TrimPrefix(fld, "server.Server.")+" invalidated on change", h.Pos(),
 				"the change handler drops the cache unconditionally, next to storing the new text",
 				"the per-document cache "+fld+" is filled by request handlers and answers from it short-circuit recomputation, but the change handler does not drop it unconditionally when the text changes: answers are computed from the text as it was before the edit")
+			// ... unless every hit is validated against the current text: in each function that loads from the cache,
+			// the returns whose value comes from the loaded entry are control dependent on an equality between a string
+			// read from that entry and a string that does not come from it (the text handed to the reader)
+			validated := len(loads[fld]) > 0
+			for _, u := range loads[fld] {
+				okHere := false
+				for _, b := range u.f.Blocks {
+					ret, isRet := lastInstr(b).(*ssa.Return)
+					if !isRet {
+						continue
+					}
+					fromEntry := false
+					for _, r := range ret.Results {
+						if backSlice(r)[u.call] {
+							fromEntry = true
+						}
+					}
+					if !fromEntry {
+						continue
+					}
+					guarded := false
+					for _, cc := range append(controlCondsPol(b), controlDeps(b)...) {
+						bo, isBo := cc.Cond.(*ssa.BinOp)
+						if !isBo || bo.Op != token.EQL || !cc.Taken || types.TypeString(bo.X.Type().Underlying(), nil) != "string" {
+							continue
+						}
+						lx, ly := backSlice(bo.X)[u.call], backSlice(bo.Y)[u.call]
+						if lx != ly {
+							guarded = true
+						}
+					}
+					if guarded {
+						okHere = true
+					} else {
+						okHere = false
+						break
+					}
+				}
+				if !okHere {
+					validated = false
+				}
+			}
+			// the other handlers that give a document another text - open (a closed document comes back with whatever
+			// the file holds now) and close - drop it too: a cache keyed by the URI survives close and re-open
+			for _, h2 := range ci.handlers {
+				if h2 == h || h2.Pkg != spk {
+					continue
+				}
+				writesDoc := false
+				for _, b := range h2.Blocks {
+					for _, ins := range b.Instrs {
+						if call, ok := ins.(*ssa.Call); ok {
+							for _, m := range []string{"Store", "Delete"} {
+								if fl, ok := isSyncMapCall(call, m); ok && fl == docField {
+									writesDoc = true
+								}
+							}
+						}
+					}
+				}
+				if !writesDoc {
+					continue
+				}
+				r2 := Reach(g, []*ssa.Function{h2}, true)
+				drop2 := false
+				for _, u := range deletes[fld] {
+					if r2[u.f] && (u.f.Parent() == nil || r2[u.f.Parent()]) {
+						drop2 = true
+					}
+				}
+				if !drop2 && validated {
+					c.ok("C-CACHE", funcName(h2), "cache "+strings.TrimPrefix(fld, "server.Server.")+" invalidated when the document is opened or closed", h2.Pos(),
+						"every hit of the cache is decided by a comparison of what the entry records with a text handed to the reader: an entry computed for another text is not used")
+					continue
+				}
+				c.check(drop2, "C-CACHE", funcName(h2), "cache "+strings.TrimPrefix(fld, "server.Server.")+" invalidated when the document is opened or closed", h2.Pos(),
+					"the handler drops the cache when it replaces or removes the document's text",
+					"the per-document cache "+fld+" is filled by request handlers and keyed by the document, and "+funcName(h2)+" replaces or removes the document's text without dropping it: after close and re-open with another text (the file changed while it was closed) requests are answered from what was computed for the old text, and a fresh server answers differently")
+			}
 		}
 		if storedInG {
 			// state written by background goroutines and read by handlers
@@ -1085,4 +1164,105 @@ func openEndedText(c *Ctx, v ssa.Value, depth int) string {
 		}
 	}
 	return ""
+}
+
+// ruleStoreKey (C01-KEY): a read-modify-write of a concurrent map held in a struct field uses one key.  A function
+// that loads an entry of a sync.Map field and stores into the same field (the change handler: load the running text,
+// apply the changes, store the result) must name the entry the same way both times: the same value, the same place
+// (access path from the same local or parameter), or the same key function applied to the same thing.  A key that
+// is normalised at the load and raw at the store (a canonical-URI helper added to every access but one) files the
+// new text under a key nobody reads: the stored text stops following the client's buffer after the first change.
+func ruleStoreKey(c *Ctx) {
+	var desc func(v ssa.Value, depth int) string
+	desc = func(v ssa.Value, depth int) string {
+		v = stripConv(v)
+		if depth > 6 {
+			return fmt.Sprintf("%p", v)
+		}
+		switch x := v.(type) {
+		case *ssa.Call:
+			if cal := x.Call.StaticCallee(); cal != nil && inModule(cal) && len(x.Call.Args) >= 1 {
+				parts := []string{}
+				for _, a := range x.Call.Args {
+					parts = append(parts, desc(a, depth+1))
+				}
+				return funcName(cal) + "(" + strings.Join(parts, ",") + ")"
+			}
+		case *ssa.UnOp:
+			if x.Op == token.MUL {
+				if root, path, ok := fieldChain(x); ok {
+					return fmt.Sprintf("%p.%v", root, path)
+				}
+			}
+		case *ssa.Field:
+			return desc(x.X, depth+1) + fmt.Sprintf(".%d", x.Field)
+		case *ssa.Const:
+			return "const:" + x.Value.String()
+		}
+		return fmt.Sprintf("%p", v)
+	}
+	n := 0
+	for _, f := range c.P.ModuleFuncs() {
+		type use struct {
+			op  string
+			key ssa.Value
+			pos token.Pos
+		}
+		byField := map[*types.Var][]use{}
+		for _, b := range f.Blocks {
+			for _, ins := range b.Instrs {
+				call, ok := ins.(ssa.CallInstruction)
+				if !ok {
+					continue
+				}
+				cal := call.Common().StaticCallee()
+				if cal == nil || cal.Signature.Recv() == nil || !typeHasSuffix(cal.Signature.Recv().Type(), "sync.Map") || len(call.Common().Args) < 2 {
+					continue
+				}
+				switch cal.Name() {
+				case "Load", "Store", "LoadOrStore", "Swap", "CompareAndSwap":
+				default:
+					continue
+				}
+				fa, ok := call.Common().Args[0].(*ssa.FieldAddr)
+				if !ok {
+					continue
+				}
+				fv := fieldVarOfAddr(fa)
+				if fv == nil {
+					continue
+				}
+				byField[fv] = append(byField[fv], use{cal.Name(), call.Common().Args[1], ins.Pos()})
+			}
+		}
+		for fv, us := range byField {
+			hasLoad, hasStore := false, false
+			for _, u := range us {
+				if u.op == "Load" {
+					hasLoad = true
+				} else {
+					hasStore = true
+				}
+			}
+			if !hasLoad || !hasStore {
+				continue
+			}
+			n++
+			d0 := desc(us[0].key, 0)
+			same := true
+			var bad use
+			for _, u := range us[1:] {
+				if desc(u.key, 0) != d0 {
+					same, bad = false, u
+				}
+			}
+			okMsg := fmt.Sprintf("%d accesses of %s in this function name the entry the same way", len(us), fv.Name())
+			msg := ""
+			if !same {
+				msg = fmt.Sprintf("the entry of %s is read and written under keys that are built differently in one function (%s at %s against %s at %s): when the two differ - a normalised key on one side, the raw one on the other - the result of the update is filed where the next read does not look", fv.Name(), us[0].op, c.P.pos(us[0].pos), bad.op, c.P.pos(bad.pos))
+			}
+			c.check(same, "C01-KEY", funcName(f), "a read-modify-write of "+fv.Name()+" uses one key", us[0].pos, okMsg, msg)
+		}
+	}
+	c.census("C01-KEY", "functions that load and store one concurrent-map field", n, 1)
 }
